@@ -309,6 +309,10 @@ func (self *Analyzer) CheckAny(typ ast.Type) bool {
 type TypeCheckOptions struct {
 	AllowFunctionTypes          bool
 	IgnoreFnParamNameMismatches bool
+	// The value is checked against the expected type at runtime (annotated `let`, `as`): `any` inside of it is fine.
+	ValidatedAtRuntime bool
+	// Set while the inner types of a list, option, object or function type are compared.
+	nested bool
 }
 
 func (self *Analyzer) TypeCheck(got ast.Type, expected ast.Type, options TypeCheckOptions) *CompatibilityError {
@@ -322,7 +326,20 @@ func (self *Analyzer) TypeCheck(got ast.Type, expected ast.Type, options TypeChe
 	case ast.UnknownTypeKind, ast.NeverTypeKind:
 		return nil
 	case ast.AnyTypeKind:
-		// NOTE: this is OK since the `any` type is handled elsewhere
+		// An expression of type `any` is reported where it is used (implicit-`any` rule), but an `any` INSIDE of
+		// an option or function type is exempt from that rule (e.g. the result of `pop` on a `[any]`).
+		// It must not silently become a concrete type: nothing would ever check the value.
+		if options.nested && !options.ValidatedAtRuntime && !got.(ast.AnyType).IsNonePlaceholder {
+			return newCompatibilityErr(
+				diagnostic.Diagnostic{
+					Level:   diagnostic.DiagnosticLevelError,
+					Message: fmt.Sprintf("Implicit use of 'any' type: expected '%s'", expected),
+					Notes:   []string{"Consider casting this expression like this: `.. as type`"},
+					Span:    got.Span(),
+				},
+				nil,
+			)
+		}
 		return nil
 	case ast.NullTypeKind:
 		err, _ := self.checkTypeKindEquality(got, expected)
@@ -343,6 +360,7 @@ func (self *Analyzer) TypeCheck(got ast.Type, expected ast.Type, options TypeChe
 		rhsType := expected.(ast.ListType)
 
 		// check inner type
+		options.nested = true
 		if err := self.TypeCheck(lhsType.Inner, rhsType.Inner, options); err != nil {
 			return err
 		}
@@ -396,6 +414,7 @@ func (self *Analyzer) TypeCheck(got ast.Type, expected ast.Type, options TypeChe
 			}
 
 			// check field type equality
+			options.nested = true
 			if err := self.TypeCheck(gotField.Type, expectedField.Type, options); err != nil {
 				return err
 			}
@@ -440,6 +459,7 @@ func (self *Analyzer) TypeCheck(got ast.Type, expected ast.Type, options TypeChe
 		if expected.Kind() == ast.OptionTypeKind {
 			expectedOpt := expected.(ast.OptionType)
 			options.AllowFunctionTypes = true
+			options.nested = true
 			return self.TypeCheck(gotOpt.Inner, expectedOpt.Inner, options)
 		}
 
@@ -469,11 +489,15 @@ func (self *Analyzer) TypeCheck(got ast.Type, expected ast.Type, options TypeChe
 		gotFn := got.(ast.FunctionType)
 		expectedFn := expected.(ast.FunctionType)
 
+		options.nested = true
+
 		// check return type
 		if err := self.TypeCheck(gotFn.ReturnType, expectedFn.ReturnType, options); err != nil {
 			// TODO: include better error message
 			err.GotDiagnostic.Message = fmt.Sprintf("Regarding function's return type: %s", err.GotDiagnostic.Message)
-			err.ExpectedDiagnostic.Message = fmt.Sprintf("Regarding function's return type: %s", err.ExpectedDiagnostic.Message)
+			if err.ExpectedDiagnostic != nil {
+				err.ExpectedDiagnostic.Message = fmt.Sprintf("Regarding function's return type: %s", err.ExpectedDiagnostic.Message)
+			}
 			return err
 		}
 
